@@ -1170,3 +1170,45 @@ func (e *locksetEngine) findings(scope func(fn *ssa.Function) bool) []lockFindin
 	})
 	return out
 }
+
+// releases: in (a non-deferred call) may release lock (primitive unlock or a wrapper whose summary releases it).
+func (e *locksetEngine) releases(in ssa.Instruction, lock string) bool {
+	ci, ok := in.(*ssa.Call)
+	if !ok {
+		return false
+	}
+	c := ci.Common()
+	if id, acq, _, ok := e.lockOp(c); ok {
+		return !acq && id == lock
+	}
+	for _, callee := range e.calleesOf(ci) {
+		if callee == in.Parent() {
+			continue
+		}
+		if e.analyze(callee, specOf(c, callee)).Rel[lock] {
+			return true
+		}
+	}
+	return false
+}
+
+// acquires: in acquires lock (primitive or wrapper summary).
+func (e *locksetEngine) acquires(in ssa.Instruction, lock string) bool {
+	ci, ok := in.(*ssa.Call)
+	if !ok {
+		return false
+	}
+	c := ci.Common()
+	if id, acq, _, ok := e.lockOp(c); ok {
+		return acq && id == lock
+	}
+	for _, callee := range e.calleesOf(ci) {
+		if callee == in.Parent() {
+			continue
+		}
+		if _, ok := e.analyze(callee, specOf(c, callee)).Acq[lock]; ok {
+			return true
+		}
+	}
+	return false
+}
